@@ -40,7 +40,7 @@ Definition g_set_used_by (g : group) (u : sset) : group := Grp (g_units g) (g_us
 Definition g_set_memo (g : group) (m : option sset) : group := Grp (g_units g) (g_used g) (g_used_by g) m.
 
 (** The explicit bound of every walk: no walk over an acyclic graph visits more than
-    [size st] distinct groups on one path (Proofs/GroupsProofs.v: [desc_fuel_enough]).
+    [size st] distinct groups on one path (Proofs/GroupsProofs.v: [reach_fuel_enough]).
     Running out of fuel is pint's [RecursionError] (or a hang) on a cyclic graph. *)
 Definition fuel_of (st : gstate) : nat := S (size st).
 
